@@ -11,7 +11,9 @@ from . import codec_common as cc
 DIRS = ["system", "codec", "notedata", "beat", "convert", "grouping", "timing"]
 EDIT_OPS = {"getattr", "setattr", "delattr", "setkey", "delkey", "appendchart", "removechart", "swapcharts",
             "setchartitem", "delchartitem", "setchartfield", "setchartextra", "create"}
-SAVE_OPS = {"save", "reopen", "load"}
+SAVE_OPS = {"save", "reopen", "load", "writefile", "openfile"}
+MUTATE_OPS = {"mutatefile"}
+FAILED_MUTATE_OPS = {"mutatefile-failed"}
 READ_OPS = {"readnotes", "readtiming"}
 CONVERT_OPS = {"tossc"}
 TOSM_OPS = {"tosm"}
@@ -128,7 +130,126 @@ def timing_step(rng, sf, fmt, log):
         log("timenotes", sf, j=j + 1, opt=opt, res=res)
 
 
-def session(rid, seed, tosm_bias=False, timing_bias=False):
+FILE_NAMES = ["song.sm", "song.ssc", "Song.SSC", "x.SM", "a.sm.bak", "notes.txt", "b.ssc.old", "ssc", "noext", ".ssc", ".sm", "..SM", "a.b.Ssc"]
+
+
+class _Files:
+    """the session's own directory on the native filesystem (removed at the end of the session)"""
+
+    def __init__(self):
+        import tempfile
+        self.dir = tempfile.mkdtemp(prefix="vsess_")
+
+    def path(self, name):
+        import os
+        return os.path.join(self.dir, name)
+
+    def snapshot(self):
+        import os
+        out = []
+        for n in sorted(os.listdir(self.dir)):
+            with open(os.path.join(self.dir, n), "rb") as f:
+                out.append({"n": cps(n), "t": cps(f.read().decode("utf-8"))})
+        return out
+
+    def close(self):
+        import shutil
+        shutil.rmtree(self.dir, ignore_errors=True)
+
+
+def file_step(rng, sf, files, log, evs):
+    """one step of a user working with named files: serialize into a file, simfile.open(name), simfile.mutate(name, ...)
+    -> the (possibly new) simfile object"""
+    import os
+    import simfile
+    names = sorted(os.listdir(files.dir))
+    q = rng.random()
+    vals = "".join(v or "" for v in sf.values())
+    if q < 0.35 or not names:
+        if "\r" in vals or len(names) >= 4:
+            return sf
+        name = rng.choice(FILE_NAMES)
+        before = None
+        if os.path.exists(files.path(name)):
+            with open(files.path(name), "rb") as f:
+                before = f.read()
+
+        def undo():
+            if before is None:
+                if os.path.exists(files.path(name)):
+                    os.remove(files.path(name))
+            else:
+                with open(files.path(name), "wb") as f:
+                    f.write(before)
+        try:
+            with open(files.path(name), "w", encoding="utf-8", newline="") as f:
+                sf.serialize(f)
+        except Exception:  # noqa
+            undo()
+            return sf
+        with open(files.path(name), "rb") as f:
+            text = f.read().decode("utf-8")
+        if len(text) > 900 or "\r" in text:          # (CR: text-mode newline translation is not the library's)
+            undo()
+            return sf
+        log("writefile", sf, name=cps(name), text=cps(text), fsafter=files.snapshot())
+    elif q < 0.65:
+        name = rng.choice(names)
+        strict = rng.random() < 0.7
+        try:
+            new = simfile.open(files.path(name), strict=strict)
+            sf = new
+            log("openfile", sf, name=cps(name), strict=strict, res="ok", fsafter=files.snapshot())
+        except Exception as e:  # noqa
+            log("openfile", sf, name=cps(name), strict=strict, res=type(e).__name__, fsafter=files.snapshot())
+    else:
+        name = rng.choice(names)
+        free = [n for n in FILE_NAMES + ["out.sm", "out.ssc", "backup.old"] if n != name]
+        out = rng.choice(free) if rng.random() < 0.4 else None
+        bak = rng.choice([n for n in free if n != out]) if rng.random() < 0.5 else None
+        body = rng.choice(["normal", "normal", "normal", "CancelMutation", "KeyError", "ZeroDivisionError"])
+        edits = []
+        kw = {}
+        if out:
+            kw["output_filename"] = files.path(out)
+        if bak:
+            kw["backup_filename"] = files.path(bak)
+        try:
+            with simfile.mutate(files.path(name), **kw) as m:
+                for _ in range(rng.randint(0, 3)):
+                    r = rng.random()
+                    if r < 0.5:
+                        k, v = rng.choice(["TITLE", "ARTIST", "STOPS", "FREEZES", "XKEY", "VERSION"]), val(rng)
+                        m[k] = v
+                        edits.append({"op": "setkey", "k": cps(k), "v": cps(v)})
+                    elif r < 0.8:
+                        a, v = rng.choice(["title", "stops", "bgchanges"]), val(rng)
+                        setattr(m, a, v)
+                        edits.append({"op": "setattr", "name": cps(a.upper()), "v": cps(v)})
+                    elif len(m):
+                        k = rng.choice(list(m.keys()))
+                        del m[k]
+                        edits.append({"op": "delkey", "k": cps(k)})
+                if body == "CancelMutation":
+                    raise simfile.CancelMutation()
+                if body == "KeyError":
+                    raise KeyError("from the body")
+                if body == "ZeroDivisionError":
+                    raise ZeroDivisionError("from the body")
+            res = "ok"
+        except Exception as e:  # noqa
+            res = type(e).__name__
+        snap = files.snapshot()
+        byname = {uncps(x["n"]): x["t"] for x in snap}
+        texts = {"out": byname.get(out or name, []), "bak": byname.get(bak, []) if bak else []}
+        if any("\r" in uncps(t) for t in byname.values()) or any(len(t) > 1200 for t in byname.values()):
+            evs.append({"op": "harness-stop"})
+            return sf
+        log("mutatefile", sf, name=cps(name), out=cps(out or ""), bak=cps(bak or ""), edits=edits, body=body, res=res, texts=texts, fsafter=snap)
+    return sf
+
+
+def session(rid, seed, tosm_bias=False, timing_bias=False, file_bias=False):
     import simfile
     from simfile.sm import SMSimfile, SMChart
     from simfile.ssc import SSCSimfile, SSCChart
@@ -179,12 +300,22 @@ def session(rid, seed, tosm_bias=False, timing_bias=False):
                         "after": {"fmt": "sm", "items": [], "charts": []}})
             log("create", sf)
     text = None
+    files = None
     for _ in range(rng.randint(3, 25)):
         r = rng.random()
         keys = list(sf.keys())
         try:
             if timing_bias and rng.random() < 0.6:
                 timing_step(rng, sf, fmt, log)
+                continue
+            if file_bias and rng.random() < 0.45:
+                if files is None:
+                    files = _Files()
+                sf = file_step(rng, sf, files, log, evs)
+                fmt = cc.fmt_of(sf)
+                if evs and evs[-1]["op"] == "harness-stop":
+                    evs.pop()
+                    break
                 continue
             if r < 0.10:
                 k = rng.choice(keys) if keys and rng.random() < 0.5 else rng.choice(["TITLE", "STOPS", "FREEZES", "BGCHANGES", "ANIMATIONS", "XKEY", "ARTIST"])
@@ -388,12 +519,14 @@ def session(rid, seed, tosm_bias=False, timing_bias=False):
         except Exception as e:  # noqa
             evs.append({"op": "harness-note", "after": after(sf), "note": "%s: %r" % (type(e).__name__, e)})
             break
+    if files is not None:
+        files.close()
     evs = [e for e in evs if e["op"] != "harness-note"]
     return {"id": rid, "events": evs}
 
 
-def run_sessions(ctx, n, seed, tosm_bias=False, timing_bias=False):
-    jobs = [(i, seed * 8191 + i, tosm_bias, timing_bias) for i in range(n)]
+def run_sessions(ctx, n, seed, tosm_bias=False, timing_bias=False, file_bias=False):
+    jobs = [(i, seed * 8191 + i, tosm_bias, timing_bias, file_bias) for i in range(n)]
     sessions = core.pmap(_job, jobs, chunk=25)
     parts = core.chunks(sessions, 16)
     jobs2 = []
@@ -420,6 +553,13 @@ def _job(job):
     return session(*job)
 
 
+def _label(e):
+    """the kind of an event for attribution: a mutate whose body did not end normally is judged by C06"""
+    if e["op"] == "mutatefile" and e.get("body") != "normal":
+        return "mutatefile-failed"
+    return e["op"]
+
+
 def judge(ctx, pid, sessions, verdict, ops, what):
     """report the sessions rejected at an event whose kind belongs to this property"""
     acc = rej_other = dom = 0
@@ -432,7 +572,7 @@ def judge(ctx, pid, sessions, verdict, ops, what):
             ctx.nontrivial_add(("session", json.dumps(s["events"][:3])[:300], len(s["events"])))
         elif v["verdict"] == "domain":
             dom += 1
-        elif v["op"] in ops:
+        elif _label(s["events"][v["at"] - 1]) in ops:
             e = s["events"][v["at"] - 1]
             shown = {k: (uncps(x) if isinstance(x, list) and x and isinstance(x[0], int) else x) for k, x in e.items() if k not in ("after", "tmpl", "ctmpl")}
             ctx.violation("%s:session:%s" % (pid, v["op"]),
